@@ -303,7 +303,35 @@ func rtZMaps(v *ZMaps) *ZMaps {
 
 // H_C01_toplevel: top-level scalars come back in their canonical wire type.
 func H_C01_toplevel() {
-	switch vChoice("kind", 9) {
+	switch vChoice("kind", 11) {
+	case 9: // a struct passed by value: the wire has objects only, the decoder hands out a pointer (known finding)
+		x := ZInner{N: vInt32("x"), S: "v"}
+		typMap, nameMap := vExtract(x)
+		bs, err := ToBytes(x, nameMap)
+		vAssert("enc", err == nil)
+		out, err := ToObject(bs, typMap)
+		vAssert("dec", err == nil)
+		if vIsOpen("C01-toplevel-struct-comes-back-as-pointer") {
+			got, ok := out.(*ZInner)
+			vAssert("struct-fields", ok && got != nil && got.N == x.N && got.S == "v")
+		} else {
+			got, ok := out.(ZInner)
+			vAssert("struct-same-dynamic-type", ok && got.N == x.N && got.S == "v")
+		}
+	case 10: // a map of an unnamed Go map type on its own travels untyped (known finding, as in C06)
+		x := map[string]int32{"k": vInt32("x")}
+		typMap, nameMap := vExtract(x)
+		bs, err := ToBytes(x, nameMap)
+		vAssert("enc", err == nil)
+		out, err := ToObject(bs, typMap)
+		vAssert("dec", err == nil)
+		if vIsOpen("C01-bare-map-loses-go-type") {
+			got, ok := out.(map[interface{}]interface{})
+			vAssert("map-entries", ok && len(got) == 1 && got["k"] == interface{}(x["k"]))
+		} else {
+			got, ok := out.(map[string]int32)
+			vAssert("map-same-dynamic-type", ok && len(got) == 1 && got["k"] == x["k"])
+		}
 	case 0:
 		x := vInt32("x")
 		bs, err := ToBytes(x, nil)
